@@ -145,12 +145,16 @@ def run(spec):
             p.initialisePhases = bad
         if spec['prior'] == 'interrupt': st['interrupt_at'] = 2
         try:
-            d.set(params).run(fatal=True)
+            rc0 = d.set(params).run(fatal=True)
+            import copy
+            st['handed'] = (rc0['results'], copy.deepcopy(rc0['results']))
         except (RuntimeError, KeyboardInterrupt):
             pass
         p.initialisePhases = orig_init
         st.pop('interrupt_at', None)
+        handed = st.pop('handed', None)
         exp.clear(); perms.clear(); viol.clear(); sr.lines.clear(); info['events'] = 0; st['taps'] = []; st['groups'] = None; st.pop('lastid', None)
+        st['handed'] = handed
     try:
         rc = d.set(params).run(fatal=True)
         res = rc['results'] if 'results' in rc else rc[list(rc)[-1]]
@@ -165,6 +169,8 @@ def run(spec):
         if taps != list(zip(ft, fn)): vio(f"the firing log {list(zip(ft, fn))[:6]}... does not match the firing events delivered to the tap {taps[:6]}...")
         if any(not (0.0 <= x <= 1.0) for x in ph): vio(f"final phases {ph} not all in [0, 1]")
         if len(ph) != len(spec['nodes']): vio("final phases do not cover the nodes")
+        if st.get('handed') is not None and st['handed'][0] != st['handed'][1]:
+            vio("the results returned by an earlier run on the same process were changed by the later run")
     except CaseTimeout:
         raise
     except Exception as ex:
@@ -194,9 +200,63 @@ def run_round(spec):
     return [f"ROUND {bits(x)}"], [str(bits(round(x, 5)))], dict(events=1), []
 
 
-PROFILES = dict(pulse=lambda rnd: dict(gen(rnd), runner='pulse'), pulse_complete=lambda rnd: dict(gen(rnd, complete=True), runner='pulse'),
+def gen2(rnd):
+    sp = gen(rnd); sp['runner'] = 'pulse2'; sp['period2'] = rnd.choice([1.0, 2.0, 0.5, 1.5]); sp['states2'] = [rnd.random() for _ in sp['nodes']]
+    sp['prior'] = None
+    return sp
+
+
+def run2(spec):
+    """two named oscillator populations over one network (oracle only: the model carries one population): each keeps its own one
+    pending firing per node, and neither disturbs the other's"""
+    import epydemic.pulsecoupled as pm
+    from epydemic import ProcessSequence
+    sr = Scripted(list(spec['states']) + list(spec['states2'])); pm.rng = sr
+    g = nx.Graph(); g.add_nodes_from(spec['nodes']); g.add_edges_from([tuple(e) for e in spec['edges']])
+    a = PulseCoupledOscillator('fast'); b = PulseCoupledOscillator('slow')
+    top = ProcessSequence([a, b]); top.setMaximumTime(spec['maxT'])
+    Dyn = StochasticDynamics if spec['dyn'] == 'sto' else SynchronousDynamics
+    viol = []; info = dict(events=0, exc=None)
+
+    def vio(msg):
+        if not viol: viol.append(('pulse', msg))
+
+    def check(d, now):
+        gg = d.network(); fin = d._postedEventFinder
+        ids = []
+        for q in (a, b):
+            mine = [gg.nodes[n].get(q.NODE_EVENT_ID) for n in gg.nodes()]
+            if any(i is None for i in mine): return vio(f"at t={now} a node has no firing event of population {q.instanceName()}")
+            if any(i not in fin for i in mine): return vio(f"at t={now} a firing event of population {q.instanceName()} is not pending (un-posted or overwritten by the other population)")
+            ids += mine
+        if len(set(ids)) != len(ids) or set(ids) != set(fin): return vio(f"at t={now} the pending events {sorted(fin)} are not exactly one per node and population {sorted(ids)}")
+
+    class D(Dyn):
+        def simulationStarted(self, params): check(self, 0.0)
+
+        def eventFired(self, t, pr, name, e):
+            info['events'] += 1
+            if info['events'] > 600: raise CaseTimeout()
+            check(self, t)
+    d = D(top, FixedNetwork(g))
+    P = PulseCoupledOscillator
+    params = {P.PERIOD + '@fast': spec['period'], P.PERIOD + '@slow': spec['period2'], P.B: spec['b'], P.COUPLING: spec['coupling']}
+    try:
+        rc = d.set(params).run(fatal=True)
+        res = rc['results']
+        for q in (a, b):
+            ft = res.get(q.decoratedNameInInstance(P.FIRING_TIMES) if hasattr(q, 'decoratedNameInInstance') else P.FIRING_TIMES)
+            if ft is not None and any(x > y for x, y in zip(ft, ft[1:])): vio(f"firing times of population {q.instanceName()} decrease")
+    except CaseTimeout:
+        raise
+    except Exception as ex:
+        info['exc'] = f"{type(ex).__name__}: {ex}"; vio(f"the run raised {type(ex).__name__}: {ex}")
+    return ["ROUND 0"], ["0"], info, viol
+
+
+PROFILES = dict(pulse2=gen2, pulse=lambda rnd: dict(gen(rnd), runner='pulse'), pulse_complete=lambda rnd: dict(gen(rnd, complete=True), runner='pulse'),
                 round=gen_round)
-RUNNERS = dict(pulse=run, round=run_round)
+RUNNERS = dict(pulse=run, round=run_round, pulse2=run2)
 
 
 def main():
